@@ -134,7 +134,7 @@ PROPS = {
         "level_note": "http::StatusCode::{as_str,canonical_reason} are trusted (third-party).",
     },
     "C08": {
-        "functions": ["Request::poll_input", "Request::poll_output", "Token::parse_request", "Request::record_boundary (thorough: c07_close_drain)", "RepeatableLockFuture::poll"],
+        "functions": ["Request::poll_input", "Request::poll_output", "Token::parse_request", "RepeatableLockFuture::poll"],
         "bounds": "one poll of poll_read from a symbolic request state (0..2 stream bytes buffered, 0|2 reply bytes pending, caller buffer 0..4) and up to 3 polls of parse_request (0..24 handed-over bytes), each against the PARSER CONTRACT (any consumption, 0|2 reply bytes per parse call, any delivery <= 3 bytes, end of stream, <= 1 error); reader <= 2 reads + <= 1 Pending + EOF/error; writer <= 1 short write + <= 1 Pending",
         "outside": "the real parsers inside the async functions (the contract stub stands for them; what they really do is C01-C06); more than the stated transport budgets; multi-task schedules; whole Token::run executions. Concrete-trace harnesses with the real parser (tier=manual) find the pre-fix defect in 215 s but their proofs on the fixed tree do not fit in 20 GB",
         "assumptions": [E2, E7, E8, "parser contract stubs sv::parse_contract / rv::rparse_contract / sv::compress_contract replace stream::Parser::parse, request::Parser::parse, compress"],
@@ -159,14 +159,14 @@ PROPS = {
     },
     "C11": {
         "functions": ["request::ParamsState::drive (abort during Params)", "stream::Parser::parse_head (abort during streams)", "From<parser::Error> for io::Error", "request::HeaderState::drive (stale records)", "From<ExitStatus> for EndRequest / make_request_epilogue"],
-        "bounds": "every header in every state (see C01/C02/C04): abort for the own id during Params => exactly one EndRequest(RequestComplete, 0, id) and return to the initial state; during streams => Err(AbortRequest) with the header retained (repeats); abort for other ids ignored; AbortRequest => io ConnectionAborted (and only it); ExitStatus::ABORT = Complete('ABRT'); thorough: close() tolerates an abort seen while draining (c07_close_drain)",
-        "outside": "the handler-facing half in Token::run (ConnectionAborted from the handler => ExitStatus::ABORT => close) is a 5-line match that is not reached by any harness (Token needs async_lock/event-listener, see C13); 'the same connection then serves the next request' is compositional (C05 + C07 thorough)",
+        "bounds": "every header in every state (see C01/C02/C04): abort for the own id during Params => exactly one EndRequest(RequestComplete, 0, id) and return to the initial state; during streams => Err(AbortRequest) with the header retained (repeats); abort for other ids ignored; AbortRequest => io ConnectionAborted (and only it); ExitStatus::ABORT = Complete('ABRT')",
+        "outside": "the handler-facing half in Token::run (ConnectionAborted from the handler => ExitStatus::ABORT => close) is a 5-line match that is not reached by any harness (Token needs async_lock/event-listener, see C13); close()/record_boundary() tolerating the abort is only in a tier=manual harness (c07_close_drain, does not fit); 'the same connection then serves the next request' is compositional (C05)",
         "assumptions": [E2, E4, E5, E8],
         "level_text": "Bounded model checking of the parser-side abort behaviour from arbitrary states plus the error-kind mapping; the connection-task half is outside (stated).",
         "level_note": "",
     },
     "C12": {
-        "functions": ["Request::poll_input (EOF / read error)", "Token::parse_request (EOF / read error)", "From<parser::Error> for io::Error", "Request::record_boundary (thorough)"],
+        "functions": ["Request::poll_input (EOF / read error)", "Token::parse_request (EOF / read error)", "From<parser::Error> for io::Error", "Request::record_boundary (only in the tier=manual harness c07_close_drain)"],
         "bounds": "glue harnesses of C08/C09: transport EOF or error after <= 2 reads at any point: poll_read fails with UnexpectedEof resp. the transport's error and never returns a successful empty read unless the stream ended; parse_request fails with ConnectionReset resp. the transport's error and never hands out a request after EOF/error; no spinning (bounded polls with unwinding assertions)",
         "outside": "write-side faults (WriteZero / write errors in poll_output, poll_write): not checked; 'nothing is written after a failed write' not checked; whole Token::run termination; EOF at every byte offset of a real byte stream is replaced by EOF at every point of the contract-level execution",
         "assumptions": [E2, E7, E8, "parser contract stubs (see C08)"],
@@ -182,12 +182,12 @@ PROPS = {
         "level_note": "Partial: wait-group half of the property only.",
     },
     "C07": {
-        "functions": ["make_request_epilogue", "From<ExitStatus> for EndRequest", "Token::parse_request", "StreamWriter::poll_write", "Request::close (thorough)"],
-        "bounds": "epilogue bytes for every ExitStatus x id; parse_request glue (C08); writer records (C10); thorough: Request::close at a record boundary (KeepConn / no KeepConn, pending replies, look-ahead) and while draining an unread record, against the parser contract, with a transport that checks the exact byte sequence",
-        "outside": "exactly-one-handler-invocation and the request loop of Token::run (Token needs async_lock/event-listener, see C13); close() only in the thorough tier (30+ min per harness)",
+        "functions": ["make_request_epilogue", "From<ExitStatus> for EndRequest", "Token::parse_request", "StreamWriter::poll_write"],
+        "bounds": "end-of-request record sequence (empty Stdout, empty Stderr, EndRequest with the exit status and the request id) for every ExitStatus x id as built by make_request_epilogue; parse_request glue (C08 bounds); output records (C10 bounds)",
+        "outside": "Request::close as a whole (order of pending replies vs epilogue, reuse iff KeepConn, draining unread input): three harnesses exist (c07_close_keep_writeable, c07_close_nokeep, c07_close_drain; tier=manual) but the async state machine of close() exhausts 20 GB after 50 min of symbolic execution - seeded change C07-a (pending replies written after the epilogue) is therefore NOT caught by any registered check; exactly-one-handler-invocation and the request loop of Token::run (Token needs async_lock/event-listener, see C13)",
         "assumptions": [E2, E7, E8, "parser contract stubs (see C08)"],
-        "level_text": "Bounded model checking of the pieces the end-of-request protocol is made of; the whole-connection statement is outside.",
-        "level_note": "Partial.",
+        "level_text": "Bounded model checking of the building blocks of the end-of-request protocol (epilogue bytes, reply flushing before waiting, output record framing); the per-connection statement itself (one handler call, reuse decision) is outside and said so.",
+        "level_note": "Partial claim; see 'outside'.",
     },
 }
 NOT_APPLICABLE.update({
